@@ -1,10 +1,10 @@
 #!/venv/bin/python
 """Re-run quick checks against every kept seeded change and refresh meta.json["checks_quick"].
 
-    recheck_seeds.py [--props all|group] [--only id,id]
+    recheck_seeds.py [--props all|group|own] [--only id,id] [--jobs N]
 
 'group' (default) runs the seed's own property plus the properties that share its harness; 'all' runs all twenty checks
-(about 4 minutes per seed)."""
+(about 4 minutes per seed); 'own' runs only the property the seed was written against.  --jobs runs N seeds at once."""
 import argparse
 import glob
 import json
@@ -17,29 +17,41 @@ sys.path.insert(0, os.path.join(VERIF, "tools"))
 from keep_seed import GROUPS  # noqa: E402
 
 
-def main():
-    ap = argparse.ArgumentParser()
-    ap.add_argument("--props", default="group")
-    ap.add_argument("--only")
-    args = ap.parse_args()
-    for d in sorted(glob.glob(VERIF + "/seeded/*/")):
+def one(job):
+    d, args = job
+    if True:
         sid = os.path.basename(d.rstrip("/"))
-        if args.only and sid not in args.only.split(","):
-            continue
         meta = json.load(open(d + "meta.json"))
         prop = meta["breaks_property"]
-        props = "all" if args.props == "all" else ",".join(sorted(next(g for g in GROUPS if prop in g)))
+        props = "all" if args.props == "all" else prop if args.props == "own" else ",".join(sorted(next(g for g in GROUPS if prop in g)))
         r = subprocess.run([sys.executable, os.path.join(VERIF, "tools", "try_patch.py"), d + "patch.diff", "--props", props], capture_output=True, text=True)
         line = [l for l in r.stdout.splitlines() if l.startswith("SUMMARY ")]
         if not line:
-            print(sid, "FAILED", r.stderr[-300:])
-            continue
+            print(sid, "FAILED", r.stderr[-300:], flush=True)
+            return
         summ = json.loads(line[0][len("SUMMARY "):])
         fresh = {p: v["verdict"] + (": " + v["first_line"] if v["verdict"] != "quiet" else "") for p, v in summ["checks"].items()}
         meta["checks_quick"] = dict(meta.get("checks_quick", {}), **fresh) if args.props != "all" else fresh
         meta["checks_rechecked_at_verif_commit"] = subprocess.check_output(["git", "-C", VERIF, "rev-parse", "--short", "HEAD"], text=True).strip()
         json.dump(meta, open(d + "meta.json", "w"), indent=1)
         print(sid, {p: v["verdict"] for p, v in summ["checks"].items()}, flush=True)
+
+
+def main():
+    import multiprocessing.pool
+    ap = argparse.ArgumentParser()
+    ap.add_argument("--props", default="group")
+    ap.add_argument("--only")
+    ap.add_argument("--jobs", type=int, default=1)
+    args = ap.parse_args()
+    jobs = []
+    for d in sorted(glob.glob(VERIF + "/seeded/*/")):
+        sid = os.path.basename(d.rstrip("/"))
+        if args.only and sid not in args.only.split(","):
+            continue
+        jobs.append((d, args))
+    with multiprocessing.pool.ThreadPool(args.jobs) as pool:
+        pool.map(one, jobs, chunksize=1)
 
 
 if __name__ == "__main__":
